@@ -9,6 +9,7 @@ import FileD.Drv.PoolTrace
 import FileD.Drv.StreamTrace
 import FileD.Spec.C04
 import FileD.Spec.C05
+import FileD.Drv.C01
 namespace FileD.DrvC04
 open FileD
 
@@ -34,6 +35,9 @@ def handleStream (args impl : List String) : Option (String × String) :=
 def handle (cmd : String) (args impl : List String) : Option (String × String) :=
   if cmd = "c04.pool" then handlePool args impl
   else if cmd = "c04.stream" then handleStream args impl
+  -- whole-pipeline liveness: the C01/C02 pipeline trace (streams, processors, real join/split, batcher);
+  -- P fails iff the run never went idle or an accepted event was neither committed nor dropped
+  else if cmd = "c04.run" then FileD.DrvC01.handle cmd args impl
   else none
 
 end FileD.DrvC04
